@@ -213,6 +213,28 @@ func ScaffoldBig2(sigma []byte, variant string) Scaffold {
 	}}
 }
 
+// ScaffoldBigNibble makes the root a 257-bit node whose 13 children all share the
+// high nibble of their first byte (the first differing bit of the key set is in
+// a LOW nibble, so the 8-bit word of the big node must be re-aligned to the byte);
+// S hangs below the last of them.
+func ScaffoldBigNibble() Scaffold {
+	name := "bignib"
+	return Scaffold{name, func(S []string) *Scaffolded {
+		var fixed []string
+		for i := 0; i < 12; i++ {
+			fixed = append(fixed, string([]byte{byte(0x60 + i)}))
+			if i%4 == 1 {
+				fixed = append(fixed, string([]byte{byte(0x60 + i), 0x6f, 0x01}))
+			}
+		}
+		P := "\x6c"
+		if len(S) == 0 {
+			fixed = append(fixed, P)
+		}
+		return mk(name, fixed, S, func(q string) string { return P + q })
+	}}
+}
+
 // ScaffoldBigPair builds two 257-bit nodes (the root and the node under its first
 // label) whose label sets are equal except inside 64-bit word k of the 257-bit
 // bitmap (k = 0..3): the root carries byte x_k, the second node bytes y_k, y2_k,
